@@ -103,7 +103,7 @@ Qed.
 Lemma brt_name_enc : forall st d, wf_name_rec d = true ->
   brt_name show_f64 st (enc_brtname d) =
   do f <- xlsb_parse_formula show_f64
-            {| be_sheets := ws_ext st; be_names := map fst (ws_names st) |} (nr_rgce d);
+            {| be_sheets := ws_ext st; be_names := map fst (ws_names st); be_base := None |} (nr_rgce d);
   Ok {| ws_ext := ws_ext st; ws_names := ws_names st ++ [(nr_name d, f)] |}.
 Proof.
   intros st d Hwf. unfold wf_name_rec in Hwf.
@@ -169,7 +169,7 @@ Proof.
     cbn [map app xlsb_names_loop spec_names_xlsb].
     change (0x0027 =? 0x016A) with false. change (0x0027 =? 0x0027) with true. cbn iota.
     rewrite brt_name_enc by exact Hd.
-    destruct (xlsb_parse_formula show_f64 {| be_sheets := ws_ext st; be_names := map fst (ws_names st) |} (nr_rgce d))
+    destruct (xlsb_parse_formula show_f64 {| be_sheets := ws_ext st; be_names := map fst (ws_names st); be_base := None |} (nr_rgce d))
       as [f|c| |]; cbn [obind]; try reflexivity.
     rewrite IH by assumption. reflexivity.
 Qed.
@@ -195,7 +195,7 @@ Proof.
   induction ds as [|d t IH]; intros ext acc r H.
   - cbn in H. injection H as <-. symmetry. apply app_nil_r.
   - cbn [spec_names_xlsb] in H.
-    destruct (xlsb_parse_formula show_f64 {| be_sheets := ext; be_names := map fst acc |} (nr_rgce d))
+    destruct (xlsb_parse_formula show_f64 {| be_sheets := ext; be_names := map fst acc; be_base := None |} (nr_rgce d))
       as [f|c| |]; cbn [obind] in H; try discriminate.
     apply IH in H. rewrite H, map_app. cbn [map fst]. rewrite <- app_assoc. reflexivity.
 Qed.
@@ -217,7 +217,7 @@ Qed.
 Theorem ptgname_is_ith_record_xlsb : forall ext ds r i d k,
   spec_names_xlsb show_f64 ext [] ds = Ok r -> nth_error ds i = Some d ->
   N.of_nat i + 1 < 4294967296 ->
-  xlsb_parse_formula show_f64 {| be_sheets := ext; be_names := map fst r |}
+  xlsb_parse_formula show_f64 {| be_sheets := ext; be_names := map fst r; be_base := None |}
     (encode_xlsb (EName k (N.of_nat i + 1))) = Ok (nr_name d).
 Proof.
   intros ext ds r i d k H Hn Hi.
@@ -233,7 +233,7 @@ Qed.
 
 Theorem sheet3d_through_xti_xlsb : forall xtis i x nm,
   nth_error xtis i = Some x ->
-  spec_sheet_xlsb {| be_sheets := spec_extern_xlsb sheets xtis; be_names := nm |} (N.of_nat i)
+  spec_sheet_xlsb {| be_sheets := spec_extern_xlsb sheets xtis; be_names := nm; be_base := None |} (N.of_nat i)
   = resolve_xti sheets (snd (fst x)).
 Proof.
   intros xtis i x nm H. unfold spec_sheet_xlsb, spec_extern_xlsb. cbn [be_sheets].
